@@ -20,6 +20,7 @@ from vgi_rpc.external import (
     ExternalLocationConfig,
     maybe_externalize_batch,
     maybe_externalize_collector,
+    predict_externalize_bytes_for_batch,
     resolve_external_location,
 )
 from vgi_rpc.log import Level, Message
@@ -838,7 +839,8 @@ def _write_stream_header(
     sink: _ClientLogSink | None = None,
     *,
     method_name: str = "",
-) -> None:
+    max_external_bytes: int | None = None,
+) -> int:
     """Write a stream header as a complete IPC stream (schema + 1-row batch + EOS).
 
     If *sink* is provided, any buffered log messages are flushed into the
@@ -854,17 +856,35 @@ def _write_stream_header(
         external_config: Optional external storage configuration.
         sink: Optional client log sink to flush before writing the header batch.
         method_name: RPC method name, used in error messages.
+        max_external_bytes: Optional per-response cap on externalised bytes
+            (HTTP ``max_externalized_response_bytes``).  A header whose upload
+            would exceed it is refused *before* the upload.
+
+    Returns:
+        Bytes uploaded to external storage for the header (``0`` when it was
+        written inline), so a caller enforcing a per-response external cap
+        can count them.
 
     Raises:
         TypeError: If *header* is ``None``.
+        RuntimeError: If externalising the header would exceed
+            *max_external_bytes*.
 
     """
     if header is None:
         raise TypeError(f"Method '{method_name}' declares header type but returned header=None")
     batch = header._serialize()
     _record_output(batch)
+    external_bytes = 0
     if external_config is not None:
-        batch, cm, _ext_bytes = maybe_externalize_batch(batch, None, external_config)
+        if max_external_bytes is not None:
+            predicted = predict_externalize_bytes_for_batch(batch, external_config)
+            if predicted > max_external_bytes:
+                raise RuntimeError(
+                    f"Externalised payload exceeds max_externalized_response_bytes "
+                    f"({predicted} > {max_external_bytes}) for the stream header of method {method_name!r}"
+                )
+        batch, cm, external_bytes = maybe_externalize_batch(batch, None, external_config)
     else:
         cm = None
     with new_ipc_stream(dest, batch.schema) as writer:
@@ -876,6 +896,7 @@ def _write_stream_header(
             writer.write_batch(batch)
     if sink is not None:
         sink.reset()
+    return external_bytes
 
 
 def _read_header_batch(
